@@ -38,7 +38,7 @@ PLAN = dict(
           "(75 - 300 KiB) carry one fault in the last entry, the one before, the first entry beyond 64 KiB / "
           "128 KiB, or one in the second half, under the same families plus heads that end just before, inside and "
           "just after the malformed entry. Non-trivial = the partition has at least one cut strictly inside "
-          "the stream; distinct = distinct (stream bytes, cut list) by 64-bit fingerprint. Later additions: streams built through new(), default() and a clone taken half way; chunks delivered through write, write_all, write_vectored and write+flush; entries repeated verbatim; one stream in four with its variables in a shuffled order on the wire; the text of a missing-variable error may name no other variable."),
+          "the stream; distinct = distinct (stream bytes, cut list) by 64-bit fingerprint. Later additions: streams built through new(), default() and a clone taken half way; chunks delivered through write, write_all, write_vectored and write+flush; entries repeated verbatim; one stream in four with its variables in a shuffled order on the wire; the text of a missing-variable error may name no other variable. Round 10: streams in which one separator has its two newlines on either side of 4 KiB ... 128 KiB (shifted by -1/0/+1), delivered after a first write of 1-3 bytes in pieces that end inside entries, right behind the separator, and in one call."),
     exhaustive={"quick": "every single cut of every stream up to 8 KiB (2 small, 10 medium, 3 large, 80 malformed); every pair of cuts of the 2 small streams; for each of the 13 + 20 huge streams every head length T-2..T+2 and the four positions around the following entry boundary for every threshold T below the stream length",
                 "thorough": "every single cut of every stream up to 8 KiB (12 small, 160 medium, 40 large, 960 malformed); every pair of cuts of the 12 small streams and of every medium stream <= 400 bytes; the threshold heads of 48 + 80 huge streams"},
     assumptions=[
